@@ -241,9 +241,11 @@ Example ssa_to_vtt_needs_no_empty_line :
   let d := sv_doc1 [] [[mkArun (s2l "one"%string) None]; [mkArun [] None]; [mkArun (s2l "three"%string) None]] in
   doc_reprb d = true /\ sv_trip d = Ok [(1000000000%Z, 2000000000%Z, [s2l "one"%string])].
 Proof. split; vm_compute; reflexivity. Qed.
-Example ssa_to_vtt_needs_voice_without_gt :
+(* a '>' in the speaker name: since the library fix of finding F2 the writer emits its character reference and the text
+   survives (before: voice a, text b>t) *)
+Example ssa_to_vtt_voice_with_gt_keeps_text :
   let d := sv_doc1 (s2l "a>b"%string) [[mkArun (s2l "t"%string) None]] in
-  doc_reprb d = true /\ sv_trip d = Ok [(1000000000%Z, 2000000000%Z, [s2l "b>t"%string])].
+  doc_reprb d = true /\ sv_trip d = Ok [(1000000000%Z, 2000000000%Z, [s2l "t"%string])].
 Proof. split; vm_compute; reflexivity. Qed.
 Example ssa_to_vtt_needs_no_note_prefix :
   let d := sv_doc1 [] [[mkArun (s2l "NOTE this"%string) None]] in
